@@ -38,7 +38,7 @@ TReplay == LET r == Events[l] IN
 (* how many the compound assignment differed from the pure operator.                                            *)
 TArith == LET r == Events[l] IN
   /\ IsEvent("Arith") /\ r.type \in DOMAIN Shapes /\ r.n > 0
-  /\ r.op \in {"add", "sub", "muln", "nmul", "divn", "ratio"}
+  /\ r.op \in {"add", "sub", "muln", "nmul", "divn", "ratio", "number_of_other_type"}
   /\ bad' = bad \o (IF r.pure_bad = 0 THEN <<>> ELSE <<[cls |-> "arith_pure", type |-> r.type, num |-> r.num \o ":" \o r.op]>>)
                 \o (IF r.compound_bad = 0 THEN <<>> ELSE <<[cls |-> "arith_compound", type |-> r.type, num |-> r.num \o ":" \o r.op]>>)
   /\ UNCHANGED seen
